@@ -74,13 +74,13 @@ def geomNoise (scale u : α) : Int :=
   let v := (u - 1 / 2) * (1 + Transc.exp scale)
   if v < 0 then -(Transc.floor (Transc.log (-v) / scale)) else Transc.floor (Transc.log v / scale)
 
-/-- `Geometric.randomise(value)` = `int(np.round(value + sgn * np.floor(np.log(sgn * unif_rv) / scale)))`: the sum of the
-(Python int) value and the integer-valued float noise is a FLOAT addition — exact below 2^53, rounded to the double
-grid above (huge sensitivity / tiny epsilon) — and `np.round`/`int` then return that integer-valued double exactly.
+/-- `Geometric.randomise(value)` = `int(value) + sgn * int(np.floor(np.log(sgn * unif_rv) / scale))` (since c709270 the
+sum is taken in Python integers, i.e. exactly, whatever the magnitude of the input; before, `value + noise` was a float
+addition that rounded inputs above 2^53 before the noise was added).
 For `sensitivity = 0` the code sets `_scale = -inf`, for which every uniform other than exactly ½ gives `exp(scale) = 0`,
 `log|v| / -inf = +0.0`, noise 0 (u = ½ is redrawn, see `geomDraw`); the model returns the value unchanged in that branch. -/
 def geomRandomise (eps : α) (sens : Nat) (value : Int) (u : α) : Int :=
-  if 0 < sens then Transc.floor ((value : α) + ((geomNoise (-eps / (sens : α)) u : Int) : α)) else value
+  if 0 < sens then value + geomNoise (-eps / (sens : α)) u else value
 
 /-- `unif_rv = rng.random() - 0.5; while unif_rv == 0: unif_rv = rng.random() - 0.5`: the uniform actually used is the
 first one of the stream that is not exactly ½ (a measure-zero redraw; `none` = stream exhausted) -/
